@@ -8,6 +8,8 @@ pub mod registry;
 
 #[cfg(any(feature = "c01", not(kani)))]
 pub mod c01;
+#[cfg(any(feature = "c02", not(kani)))]
+pub mod c02;
 #[cfg(any(feature = "c04", not(kani)))]
 pub mod c04;
 #[cfg(any(feature = "c05", not(kani)))]
@@ -20,11 +22,21 @@ pub mod c08;
 pub mod c11;
 #[cfg(any(feature = "c12", not(kani)))]
 pub mod c12;
+#[cfg(any(feature = "c13", not(kani)))]
+pub mod c13;
+#[cfg(any(feature = "c14", not(kani)))]
+pub mod c14;
+#[cfg(any(feature = "c15", not(kani)))]
+pub mod c15;
 #[cfg(any(feature = "c16", not(kani)))]
 pub mod c16;
 #[cfg(any(feature = "c17", not(kani)))]
 pub mod c17;
+#[cfg(any(feature = "c18", not(kani)))]
+pub mod c18;
 #[cfg(any(feature = "c19", not(kani)))]
 pub mod c19;
+#[cfg(any(feature = "c20", not(kani)))]
+pub mod c20;
 #[cfg(any(feature = "c99", not(kani)))]
 pub mod c99;
